@@ -23,7 +23,7 @@ sys.path.insert(0, os.path.join(VERIF, 'gen'))
 import nlgen
 from nlgen import Model, Rng
 
-PROP_MIN_THEOREMS = 41
+PROP_MIN_THEOREMS = 44
 
 # every type except cones / unary-encoding marker: natively accepted in run A
 BASE_ACCEPT = ['LinConRange', 'LinConLE', 'LinConEQ', 'LinConGE',
@@ -904,7 +904,7 @@ def condeq_nonint_cases(ck, exe, wd, stats):
     acc = ['LinConRange', 'LinConLE', 'LinConEQ', 'LinConGE', 'IndicatorLinConLE', 'IndicatorLinConEQ', 'IndicatorLinConGE']
     k = 0
     for rhs in (F(3, 2), F(1, 2), F(2), F(-1, 2)):
-        for form in ('iff', 'notimp'):
+        for form in ('iff', 'notimp', 'scaled'):
             for opts in (['cvt:pre:eqresult=0'], []):
                 k += 1
                 m = Model()
@@ -912,7 +912,12 @@ def condeq_nonint_cases(ck, exe, wd, stats):
                 b = m.var(0, 1, True)
                 y = m.var(0, 2, True)
                 eq = ('eq', ('+', ('v', x), ('v', y)), ('n', rhs))
-                if form == 'iff':
+                if form == 'scaled':
+                    # 2*x == 2*rhs: integer coefficients and right-hand side, so the preprocessing does not fix the
+                    # result; the coefficient is then normalised to 1 and the right-hand side becomes fractional
+                    eq = ('eq', ('*', ('n', 2), ('v', x)), ('n', 2 * rhs))
+                    m.lcon(('or', ('eq', ('v', b), ('n', 1)), ('not', eq)))
+                elif form == 'iff':
                     m.lcon(('iff', ('eq', ('v', b), ('n', 1)), eq))
                 else:
                     m.lcon(('or', ('eq', ('v', b), ('n', 1)), ('not', eq)))
